@@ -295,10 +295,11 @@ def run(work, tier, replay=None):
         # handleMessage, where the queue cannot be discarded): the open finding D21, replayed by scenarios/l2_D21_*.
         for (fq, fn) in ([(2, 6)] if tier == "quick" else [(2, 6), (3, 8), (4, 9)]):
             for flush, drain, sw, kind, name in (("queue", True, False, "good", "code, connections that end"), ("direct", False, True, "good", "direct hand-over"),
+                                                 ("async", False, True, "good", "per-connection flusher (a repair direction for D21)"),
                                                  ("queue", False, False, "refuted", "no_drain_while_leaving(D11)"),
                                                  ("queue", True, True, "refuted", "switch_of_session_with_a_full_queue(D21, open)")):
                 cfg = ('SPECIFICATION Spec\nCONSTANTS\n  Q = %d\n  N = %d\n  Flush = "%s"\n  DiscDrain = %s\n  Switches = %s\n'
-                       'INVARIANTS TypeOK NoCallAfterCancel\nPROPERTIES HandlerReturns\n' % (fq, fn, flush, str(drain).upper(), str(sw).upper()))
+                       'INVARIANTS TypeOK NoCallAfterCancel NoPushAfterReturn\nPROPERTIES HandlerReturns\n' % (fq, fn, flush, str(drain).upper(), str(sw).upper()))
                 r = work.tlc("frameflow", "FrameFlow", cfg, workers=4, timeout=900, dump=False)
                 if r.get("timeout"):
                     raise Inconclusive("FrameFlow model check timed out")
